@@ -9,7 +9,8 @@ import (
 
 type CaseC05 struct {
 	A, B    []ref.Box
-	Spatial bool // single-zoom (radix tree) API: H == V >= 1 and -2^(z-1) <= f < 2^(z-1)
+	Spatial bool  // single-zoom (radix tree) API: H == V >= 1 and -2^(z-1) <= f < 2^(z-1)
+	Spell   int64 `json:",omitempty"`
 }
 
 // spatialValid: the documented domain of the single-zoom overlap check (altitude within +-2^24 m).
@@ -111,6 +112,7 @@ func genC05(t *rapid.T) *CaseC05 {
 	if rapid.IntRange(0, 2).Draw(t, "pair") > 0 {
 		na, nb = 1, 1
 	}
+	c.Spell = genSpell(t)
 	long := rapid.IntRange(0, 119).Draw(t, "long") == 0
 	if long {
 		// long lists: implementations may switch strategy beyond a size threshold
@@ -231,11 +233,13 @@ func spatialIDs(bs []ref.Box) []string {
 	return out
 }
 
+var c05Spell int64 // spelling seed of the case being checked (checks run one case at a time)
+
 func c05Call(spatial bool, a, b []ref.Box) (bool, error) {
 	if spatial {
-		return detector.CheckSpatialIdsArrayOverlap(spatialIDs(a), spatialIDs(b))
+		return detector.CheckSpatialIdsArrayOverlap(spelledSpatial(a, c05Spell), spelledSpatial(b, c05Spell+1))
 	}
-	return detector.CheckExtendedSpatialIdsArrayOverlap(boxesExt(a), boxesExt(b))
+	return detector.CheckExtendedSpatialIdsArrayOverlap(spelledExt(a, c05Spell), spelledExt(b, c05Spell+1))
 }
 
 func c05Pair(spatial bool, a, b ref.Box) (bool, error) {
@@ -265,6 +269,10 @@ func c05Tag(c *CaseC05) string {
 }
 
 func checkC05(c *CaseC05, fl *Fails) {
+	c05Spell = c.Spell
+	if c.Spell != 0 {
+		c05Spell = c.Spell*2 + 2
+	}
 	want := refOverlapLists(c.A, c.B)
 	desc := func() string {
 		if c.Spatial {
